@@ -20,6 +20,12 @@ partial def loop (h : IO.FS.Stream) (fixed : Bool) (st : List Node) : IO Unit :=
     IO.println s!"ok {fmtNodes f}"
     loop h fixed f
   | ["upd", t, p, i, d] =>
+    -- updateTime panics when a report's previous value carries the merge mark and differs from the stamp:
+    -- by `delLoop_emits` the reports of the delete loop are exactly the lines of the deleted segment
+    if markClash st (parseNat t) (parseNat p) (parseNat d) then
+      IO.println "panic"
+      loop h fixed st
+    else
     match update fixed st (parseNat t) (parseNat p) (parseNat i) (parseNat d) with
     | .ok (ns, em) =>
       IO.println s!"ok {fmtNodes ns} | {fmtEm em}"
